@@ -434,8 +434,8 @@ class ProgGen:
             return getattr(self, "s_" + r.choice(choices))(depth)
         choices = ["assign_new"] * 3 + ["reassign"] * 3 + ["aug"] * 3 + ["write_expr"] * 2 + ["observe"] * 2
         if depth < 3:
-            choices += ["if"] * 3 + ["for"] * 2 + ["while"] * 2 + ["if_define"] * 2
-        choices += ["tuple_new"]
+            choices += ["if"] * 3 + ["for"] * 2 + ["while"] * 2 + ["if_define"] * 2 + ["nested_if"]
+        choices += ["tuple_new", "tuple_update"]
         if len(self.visible()) >= 2:
             choices += ["swap"]
         if self.use_lists:
@@ -652,6 +652,32 @@ class ProgGen:
         for n, t in zip(names, ts):
             self.observe(self.declare(n, t))
 
+    def s_tuple_update(self, depth):
+        """Parallel assignment whose right-hand sides read the targets (all evaluated before any store)."""
+        vs = [v for v in self.visible("int") if not v.ro]
+        if len(vs) < 2:
+            return self.s_reassign(depth)
+        a, b = self.r.sample(vs, 2)
+        form = self.r.choice(["{b}, abs({a} + {b}) % 97", "abs({a} + 1) % 50, {a}", "{b} - 1, abs({a} * 2) % 89", "{b}, abs({a} - {b}) % 61"])
+        self.emit(f"{a.name}, {b.name} = " + form.format(a=a.name, b=b.name))
+        self.feat("tuple-update")
+        self.observe(a)
+        self.observe(b)
+
+    def s_nested_if(self, depth):
+        """if A: (if B: X) else: Y  -- the else belongs to the outer if only."""
+        if depth >= 3:
+            return self.s_if(depth)
+        self.feat("nested-if-else")
+        self.emit(f"if {self.e_bool(1)}:")
+        self.ind += 1
+        self.emit(f"if {self.e_bool(1)}:")
+        self.block(depth + 1, n=self.r.randint(1, 2))
+        self.ind -= 1
+        self.emit("else:")
+        self.block(depth, n=self.r.randint(1, 2))
+        self.observe()
+
     def s_for(self, depth):
         self.feat("for-range")
         iv = self.fresh("k")
@@ -665,7 +691,16 @@ class ProgGen:
         else:
             # bound snapshotted into a name the body never assigns
             nv = self.fresh("n")
-            self.emit(f"{nv} = abs({self.r.choice(self.visible('int')).name}) % 4")
+            if self.chance(0.5):
+                self.emit(f"{nv} = abs({self.r.choice(self.visible('int')).name}) % 4")
+            else:
+                # constant initial value, conditionally changed before the loop (the loop body never assigns it)
+                self.emit(f"{nv} = {self.r.randint(0, 3)}")
+                self.emit(f"if {self.e_bool(1)}:")
+                self.ind += 1
+                self.emit(f"{nv} = {self.r.randint(0, 4)}")
+                self.ind -= 1
+                self.feat("for-range-var-conditional")
             self.declare(nv, "int", ro=True)
             count = nv
             self.feat("for-range-var")
